@@ -57,7 +57,7 @@ def _case(draw, big=False):
     group = draw(st.sampled_from(["plain", "ordered", "unordered", "plain", "unordered"]))
     extra = 1 if big else 0
     if group == "plain":
-        case = draw(gen.rec_case(max_obj=5 + extra, max_sp=5 + extra, costs="coherent", labelled=False))
+        case = draw(gen.rec_case(max_obj=5 + extra, max_sp=5 + extra, costs="coherent", labelled=False, misleading=True))
     elif group in ("ordered", "unordered") and gen.chance(draw, 1, 5):
         # deep chains (caterpillar of 6..7 leaves over <=2 species, <=3 families, independent leaf contents), complete
         # optimal sets from the recursion oracle; both loss costs positive so that the sets stay small
@@ -75,7 +75,7 @@ def _case(draw, big=False):
     elif group == "ordered":
         case = draw(gen.rec_case(max_obj=5 + extra, max_sp=4 + extra, costs="coherent", labelled=True, max_fam=4, prescribed_root=True))
     else:
-        case = draw(gen.rec_case(max_obj=6 + extra, max_sp=4 + extra, costs="coherent", labelled=True, max_fam=4, allow_inconsistent=False))
+        case = draw(gen.rec_case(max_obj=6 + extra, max_sp=4 + extra, costs="coherent", labelled=True, max_fam=4, allow_inconsistent=False, misleading=True))
     case["_group"] = group
     case["_unnamed"] = group == "plain" and draw(st.booleans())
     return case
